@@ -371,7 +371,11 @@ def _p3(ctx, R):
                     ok = True
                 if isinstance(nxt, ast.If) and norm(nxt.test) in ("%s is None" % v, "not %s" % v, "%s == None" % v) and any(isinstance(s, ast.Raise) for s in nxt.body):
                     ok = True
-                if ok:
+                if ok and not any(isinstance(x, ast.Name) and x.id == v and isinstance(x.ctx, ast.Load) and x.lineno > nxt.end_lineno for x in walk_local(f.node)):
+                    R.bad("P3", "%s|%s|%s|result unused" % (f.key, inner.func.attr, v), f.loc(a),
+                          "%s resolves `%s` and rejects an undeclared name, but never uses what it found: whatever that name qualifies is looked up "
+                          "in a wider scope" % (f.qualname, v))
+                elif ok:
                     R.ok("P3", "%s: %s checked" % (f.qualname, v), f.loc(a))
                 else:
                     R.bad("P3", "%s|%s|%s" % (f.key, inner.func.attr, v), f.loc(a),
@@ -388,10 +392,19 @@ def _p3(ctx, R):
                     if lp in getattr(par, b, []):
                         blk = getattr(par, b)
                 used_after = blk is not None and any(isinstance(x, ast.Name) and x.id == lp.target.id for st in blk[blk.index(lp) + 1:] for x in ast.walk(st))
+                rejects = bool(lp.orelse) and any(isinstance(s, (ast.Raise, ast.Assert)) for s in lp.orelse)
                 if not used_after:
+                    later = any(isinstance(x, ast.Name) and x.id == lp.target.id and isinstance(x.ctx, ast.Load) and x.lineno > lp.end_lineno for x in walk_local(f.node))
+                    if rejects and not later:
+                        # a qualified reference (cellRef within libraryRef, portRef within instanceRef): the container is resolved and
+                        # checked, but what it contains is then looked up somewhere else
+                        n += 1
+                        R.bad("P3", "%s|search %s|result unused" % (f.key, lp.iter.attr), f.loc(lp),
+                              "%s resolves `%s` among `%s` (and rejects an undeclared name) but never uses what it found: the name qualified by it is "
+                              "looked up in a wider scope, so a reference to something the named container does not declare is accepted"
+                              % (f.qualname, lp.target.id, norm(lp.iter)))
                     continue
                 n += 1
-                rejects = bool(lp.orelse) and any(isinstance(s, (ast.Raise, ast.Assert)) for s in lp.orelse)
                 if rejects:
                     R.ok("P3", "%s: search over %s rejects not-found" % (f.qualname, norm(lp.iter)), f.loc(lp))
                 else:
